@@ -2,7 +2,7 @@ use crate::num;
 use sc62015_core::memory::{MemoryImage, IMEM_ISR_OFFSET};
 use sc62015_core::TimerContext;
 
-/// timer_rs <en> <pm> <ps> <isr> ops...   (t:<c> | r:<c> | n:<nm>:<ns>)
+/// timer_rs <en> <pm> <ps> <isr> ops...   (t:<c> | r:<c> | n:<nm>:<ns> | z)
 pub fn run(w: &[&str]) -> String {
     let en = w[0] != "0";
     let pm = num(w[1]) as i32;
@@ -12,8 +12,12 @@ pub fn run(w: &[&str]) -> String {
     mem.write_internal_byte(IMEM_ISR_OFFSET, isr);
     let mut t = TimerContext::new(en, pm, ps);
     let mut out: Vec<String> = Vec::new();
+    let mut last_cycle: u64 = 0;
     for op in &w[4..] {
         let parts: Vec<&str> = op.split(':').collect();
+        if parts[0] == "t" || parts[0] == "r" {
+            last_cycle = num(parts[1]);
+        }
         let (fm, fs) = match parts[0] {
             "t" => t.tick_timers(&mut mem, num(parts[1]), None),
             "r" => {
@@ -23,6 +27,15 @@ pub fn run(w: &[&str]) -> String {
             "n" => {
                 t.next_mti = num(parts[1]);
                 t.next_sti = num(parts[2]);
+                (false, false)
+            }
+            "z" => {
+                // snapshot-restore point: the saved timer info applied to a context that was configured differently before
+                let (ti, ii) = t.snapshot_info();
+                let mut fresh = TimerContext::new(true, 5, 7);
+                fresh.reset(3);
+                fresh.apply_snapshot_info(&ti, &ii, last_cycle);
+                t = fresh;
                 (false, false)
             }
             _ => return "ERR bad-op".to_string(),
